@@ -130,9 +130,26 @@ func (d *decoder) decodeArrayOf(v value, elemType reflect.Type, n uint64, decode
 		v.setArray(array{})
 		return
 	}
-	a := makeArray(elemType, int(n))
-	for i := 0; i < int(n) && d.remain > 0; i++ {
+	// d.remain derives from the frame size announced by the remote end, not
+	// from the bytes that were received: allocate at most maxEagerRead bytes
+	// up front and grow the array while elements are being decoded.
+	c := 1 + maxEagerRead/(1+int(elemType.Size()))
+	if c > int(n) {
+		c = int(n)
+	}
+	a := makeArray(elemType, c)
+	for i := 0; i < int(n) && d.remain > 0 && d.err == nil; i++ {
+		if i == a.length() {
+			if c = 2 * a.length(); c > int(n) {
+				c = int(n)
+			}
+			a = growArray(elemType, a, c)
+		}
 		decodeElem(d, a.index(i))
+	}
+	if a.length() < int(n) && d.err == nil {
+		// The message was received entirely, it held at least n bytes.
+		a = growArray(elemType, a, int(n))
 	}
 	v.setArray(a)
 }
